@@ -98,6 +98,8 @@ def ref_arnoldi_subdiag(A, v, m):
 
 MAPFORMS = ('identity_alias', 'reversal_view', 'buffer', 'zero_map', 'diag_basis')
 STIFF = ('stiff',)
+GENERAL_FORMS = ('jordan',)          # non-Hermitian: Arnoldi / general exponential only
+SMALL32 = ('small32',)             # single-precision start vector, operator of small norm
 
 
 def special(rng, n, form, vreal):
@@ -140,6 +142,38 @@ def special(rng, n, form, vreal):
         A = (X * lam) @ X.conj().T
         A = (A + A.conj().T) / 2
         return dict(A=A, v=v, kdim=n, lam=lam, reach=lam)
+    if form == 'jordan':
+        # defective matrix: Jordan blocks (sizes drawn at random) in a well-conditioned basis; a generic vector has full Krylov dimension
+        lam = []; N = np.zeros((n, n))
+        pos = 0
+        while pos < n:
+            sz = int(rng.integers(1, n - pos + 1))
+            ev = float(rng.choice([0.0, 1.0, -0.5, 2.0]))
+            for t in range(sz):
+                lam.append(ev)
+                if t + 1 < sz:
+                    N[pos + t, pos + t + 1] = 1.0
+            pos += sz
+        J = np.diag(lam) + N
+        X = rand_unitary(rng, n, not vreal)
+        A = X @ J @ X.conj().T
+        # the Krylov dimension of a generic vector is the degree of the minimal polynomial: for each eigenvalue the largest block
+        sizes = {}
+        pos = 0; cur = None; run = 0
+        blocks = []
+        i = 0
+        while i < n:
+            j = i
+            while j + 1 < n and N[j, j + 1] == 1.0:
+                j += 1
+            blocks.append((lam[i], j - i + 1)); i = j + 1
+        for ev, sz in blocks:
+            sizes[ev] = max(sizes.get(ev, 0), sz)
+        return dict(A=A, v=v, kdim=int(sum(sizes.values())), lam=np.array(lam), reach=np.array(sorted(sizes)))
+    if form == 'small32':
+        P = build(rng, n, 'cherm' if not vreal else 'rsym', 'separated', n, radius=float(10.0 ** rng.uniform(-5, -3)), vreal=vreal)
+        P['v'] = P['v'].astype(np.float32 if np.isrealobj(P['v']) else np.complex64)
+        return P
     if form == 'buffer':
         P = build(rng, n, 'cherm', 'separated', n, vreal=vreal)
         buf = np.zeros(n, dtype=complex)
